@@ -108,8 +108,22 @@ def compare(ctx, form, klass, sig, fmt="dict", detail=None):
         ctx.viol(key, f"[{klass}] {what}", common.witness(form, klass=klass, fmt=fmt, detail=detail))
 
 
+def deep_form(depth, rng):
+    """Groups and repeats nested `depth` deep with a question (and a default text) at the bottom and one at every level."""
+    node = Row("q", "text", "bottom", {"label": "deep ${top}", "default": "x & y"})
+    for k in range(depth, 0, -1):
+        kind = "repeat" if rng.random() < 0.3 else "group"
+        node = Row(kind, f"begin {kind}", f"lv{k}", {"label": f"L{k}"}, [Row("q", "integer", f"q{k}", {"label": f"Q{k}"}), node])
+    f = Form()
+    f.survey = [Row("q", "text", "top", {"label": "T"}), node]
+    return f
+
+
 def run_shard(ctx):
     pl = plan(ctx.tier, ctx.seed)
+    for k, depth in enumerate([1, 5, 12, 20, 26, 27, 28, 31, 32, 33, 40, 64]):
+        if ctx.mine(k):
+            compare(ctx, deep_form(depth, ctx.rng("deep", depth)), "deep-nesting", f"depth{depth}")
     for i in range(pl["n"]):
         if not ctx.mine(i):
             continue
